@@ -24,6 +24,9 @@ def shards(tier, seed):
     out = []
     for name in S.COMMANDS:
         out.append({"id": name, "cmd": name, "nrand": 150 if tier == "quick" else 8000, "small": tier == "quick"})
+    for name in S.COMMANDS:
+        # the same in a process where a command without a class of its own was sent through the bare base class first
+        out.append({"id": name + ".base-first", "cmd": name, "nrand": 20 if tier == "quick" else 500, "small": True, "base_first": True})
     return out
 
 
@@ -77,6 +80,7 @@ def observe(ctx, c, setname, path, a, cdb, expect_op):
                  {"cmd": c.name, "table": setname, "path": path, "args": a, "cdb": bytes(cdb) if not isinstance(cdb, (type(None),)) else None})
 
 
+TICK = [0]
 CAPTURED = []  # keyword values of the most recent SCSICommand.build_cdb call (hook installed by run())
 
 
@@ -127,7 +131,8 @@ def run_one(ctx, c, setname, kind, a, do_facade, transports):
             ctx.count("reencoded_cdbs_checked")
         except Exception as e:  # noqa: BLE001
             ctx.fail("C01:%s.reencode_raises.%s" % (c.name, type(e).__name__), "marshall_cdb(unmarshall_cdb(cdb)) raised %s" % e, {"cmd": c.name, "args": a}, exc=e)
-        if ctx.evaluations % 4 == 0:
+        TICK[0] += 1
+        if TICK[0] % 4 == 0:
             # arguments given by position, in the documented order
             try:
                 pos = harness.construct_positional(c, setname, DO.fresh(a) if c.custom else a)
@@ -137,14 +142,30 @@ def run_one(ctx, c, setname, kind, a, do_facade, transports):
                     import pyscsi.pyscsi.scsi_enum_command as E
 
                     dev = harness.Recorder(getattr(E, setname))
-                    harness.facade_call_positional(c, harness.make_facade(dev), DO.fresh(a) if c.custom else dict(a))
+                    try:
+                        harness.facade_call_positional(c, harness.make_facade(dev), DO.fresh(a) if c.custom else dict(a))
+                    except Exception:  # noqa: BLE001
+                        if not dev.calls:
+                            raise  # refused before sending; what decoding an empty reply raises afterwards is not C01's business
                     for cmd2, _raw, _i, _o in dev.calls[:1]:
                         observe(ctx, c, setname, "facade_positional", full, cmd2.cdb, c.op)
                         ctx.count("positional_facade_calls_checked")
             except Exception as e:  # noqa: BLE001
                 ctx.fail("C01:%s.positional_call_raises.%s" % (c.name, type(e).__name__), "%s with its arguments given by position raised %s: %s" % (c.name, type(e).__name__, e),
                          {"cmd": c.name, "table": setname, "args": a}, exc=e)
-        if hasattr(cmd, "print_cdb") and ctx.evaluations % 5 == 0:
+        if TICK[0] % 6 == 1:
+            # a deep copy of the command is a command of its own: editing the copy's CDB in place leaves this one alone
+            import copy as _copy
+
+            try:
+                dup = _copy.deepcopy(cmd)
+                for i in range(1, len(dup.cdb)):
+                    dup.cdb[i] ^= 0xFF
+                observe(ctx, c, setname, "after_deepcopy_edited", full, cmd.cdb, c.op)
+                ctx.count("cdbs_checked_after_copy_edit")
+            except Exception as e:  # noqa: BLE001
+                ctx.fail("C01:%s.deepcopy_raises.%s" % (c.name, type(e).__name__), "copy.deepcopy(cmd) raised %s" % e, {"cmd": c.name, "args": a}, exc=e)
+        if hasattr(cmd, "print_cdb") and TICK[0] % 5 == 0:
             import contextlib
             import io
 
@@ -217,6 +238,18 @@ def run(shard, ctx):
     rng = ctx.rng()
     transports = install.transport_factories()
     from pyscsi.pyscsi.scsi_command import SCSICommand
+
+    if shard.get("base_first"):
+        from pyscsi.pyscsi.scsi_opcode import OpCode
+
+        try:
+            generic = SCSICommand(OpCode("START_STOP_UNIT", 0x1B, {}), 0, 0)
+            generic.cdb = generic.build_cdb(opcode=0x1B)
+            SCSICommand.marshall_cdb({"opcode": 0x35})
+            SCSICommand.unmarshall_cdb(bytes(10))
+        except Exception:  # noqa: BLE001
+            pass
+        ctx.count("base_class_used_first")
 
     orig_build = SCSICommand.build_cdb
 
